@@ -225,6 +225,7 @@ func main() {
 	addAppends := strings.Contains(addExpr, "append("+lrecv+",")
 	out.Def("listAddExpr", "String", xlib.LeanStr(addExpr))
 	out.Def("listAddAppendsToReceiver", "Bool", xlib.LeanBool(addAppends))
+	out.Def("listAddClips", "Bool", xlib.LeanBool(strings.HasPrefix(addExpr, "slices.Clip(")))
 
 	// ---- pyList.Freeze: return pyFrozenList{pyList: X}; is X the receiver?
 	fr := o.Func("pyList.Freeze")
